@@ -286,7 +286,7 @@ def gen_cases(ctx):
     if ctx.thorough:
         chosen = allenc
     else:
-        chosen = r.sample(allenc, 1100)
+        chosen = r.sample(allenc, 800)
         # always: every orientation with vertices_per_side beyond a side, the defect's own input
         chosen += [(4, 3, k, v) for k in range(8) for v in (4, 5, 6)]
     for (h0, w0, k, v) in chosen:
@@ -325,7 +325,7 @@ def gen_cases(ctx):
                       "shape": [h, w], "extent": ext, "vps": v, "want_lonlats": True, "true_cw": None})
     rings += gen_long(ctx)
     for g in rings:
-        g["want_legacy"] = r.random() < (0.3 if g.get("key") == "long_side" else ctx.n(0.5, 1.0))
+        g["want_legacy"] = r.random() < (0.3 if g.get("key") == "long_side" else ctx.n(0.35, 1.0))
         if g["vps"] is None and r.random() < 0.7:
             g["frequency_legacy"] = r.choice([1, 2, 2, 3, 4, 5, 7, 11])
     c["rings"] = rings
@@ -404,7 +404,7 @@ def run(ctx):
     ctx.rule = ("index tables np.linspace(.., dtype=int): all side lengths and vertex counts 1..30 ascending and descending plus "
                 "PRNG sizes up to 5000; _get_bbox_slices: all shapes 2..8 x 2..8 with vertices_per_side None, 2..12 plus PRNG shapes up "
                 "to 300 and out-of-scope shapes (1,n)/vps=1; rings: swaths whose lon/lat encode (row, col) in all 8 array orientations "
-                "(thorough: all shapes 2..8 x 2..8, all vps None,2..12; quick: a PRNG sample of 1100 plus the 4x3 vps 4..6 cases), "
+                "(thorough: all shapes 2..8 x 2..8, all vps None,2..12; quick: a PRNG sample of 800 plus the 4x3 vps 4..6 cases), "
                 "synthetic polar-orbit swaths (ascending/descending, scan direction flipped), areas in 7 CRSs with the 4 extent "
                 "orientations, NaN edge pixels, geostationary full/partial-disk areas; a case is non-trivial when vertices_per_side "
                 "differs from the side length / the ring had to be reversed / the geometry is not north-up / NaNs hit a vertex / the "
